@@ -309,7 +309,7 @@ def run_case(stats, body, case, check=None, known=()):
 
 
 def hyp_search(stats, strategy, body, *, seed, max_examples, check, known=(), rounds=4,
-               shrink=True, step_count=None):
+               shrink=True, step_count=None, round_floor=50):
     """Drive `body` (raising Failure on violation) with Hypothesis.
 
     collect-then-classify: signatures in `known` (known findings) and signatures already
@@ -380,7 +380,7 @@ def hyp_search(stats, strategy, body, *, seed, max_examples, check, known=(), ro
             ff.detail = "non-deterministic under re-execution (Hypothesis Flaky); case not fully shrunk"
             stats.fail(ff, last.get("case"), check)
             suppressed.add(ff.sig)
-        max_examples = max(50, max_examples // 2)
+        max_examples = max(round_floor, max_examples // 2)
 
 
 def pmap(func, args_list, procs=None):
